@@ -33,6 +33,11 @@ claimed = {
    note="Interleavings are NOT explored: these are per-call contracts relying on sync.Map atomicity; the registry invariant 'every stored future was made by NewMessageFuture and is completed at most once while stored' is assumed at NotifyRpcMessageResponse/Process and justified by construction (sendAsync is the only Store site; Process removes after notifying). The merged-message branch of Process is cut with invariant true and only its frame is claimed. Id freshness relies on the atomic counter (trusted). Trusted: getty.Session, the timer wheel, callbacks.",
    ref="DESIGN.md §3 C14",
    technique="contract-based deductive verification: VCs from go/ssa by symbolic execution, sync.Map as a map with whole-map frame postconditions, ghost channel capacity/length, discharged by cvc5/z3"),
+ "C19": dict(
+   text="Deductive proof over the real SSA of all five load-balance policies, Select, Consistent.pick, SessionManager.selectSession / registerSession / releaseSession and the goroutine body of OnOpen, with the session registry as a set (sync.Map keys) and sync.Map.Range as a loop over a ghost enumeration cut by quantified invariants (visited-set): for every registry content and every closed/open assignment, the chosen session was registered when the call was made and is open, nil is returned only if every registered session is closed, index arithmetic of the random / least-active / round-robin choice stays in bounds, under the XID policy an open session connected to the xid's ip:port is chosen whenever one is registered, register/release change exactly their own key of the registry, and a new session announces the client as transaction manager.",
+   note="Assumed: a session's closed flag and remote address are stable during one call; sync.Map atomic; rand.Intn in range; sort.Strings permutes; md5/hash uninterpreted; getPositiveSequence / newConsistenceInstance / hash trusted (atomics, sync.Once). The stale consistent-hash ring and selectSession returning a closed session were genuine defects, repaired (fix: commits). Known finding (open): a reopened session does not re-announce the client's resources (RM side) - structural, KNOWN-FINDING line. Behaviour over time of a real reconnect is not decided.",
+   ref="DESIGN.md §3 C19",
+   technique="contract-based deductive verification: VCs from go/ssa by symbolic execution, sync.Map.Range cut by quantified invariants over a ghost visited-set, discharged by cvc5/z3"),
 }
 na = {
  "C18": "relates generated SQL text executed by MySQL to the rows another SQL text changed; needs a formal semantics of MySQL DML and of the arana-db parser AST, which no contract within reach of a self-written VC generator can express (DESIGN.md §4)",
